@@ -293,6 +293,8 @@ func Fields(cfg DocCfg, uniq int64) *rapid.Generator[cs.Doc] {
 				}
 			case "u":
 				d[f] = uniq
+			default:
+				d[f] = Scalar(cfg.Val).Draw(t, "field-"+f)
 			}
 		}
 		if cfg.Pad > 0 {
